@@ -179,6 +179,23 @@ def run(tape, scenario, want_c10=False):
     log = hashlib.sha256(repr((decls, stmts, possible, online)).encode())
     history = []
     with env:
+        if subs and tape.chance("c08/subprograms-used-before", 30):
+            # the same sub-program instances were part of another program before (other
+            # variables around them, so another layout): nothing of that may stick to them
+            try:
+                pre_ns = {"license": "GPL", "minimumPacketSize": 20, "amap": amap,
+                          "program": lambda self: self.exit(XDPExitCode.PASS)}
+                for j in range(1 + tape.draw("c08/pre-vars", 3)):
+                    pre_ns[f"pre{j}"] = amap.globalVar(tape.pick("c08/pre-fmt", ["Q", "I", "H", "3B"]))
+                if pmap is not None:
+                    pre_ns["pmap"] = pmap
+                P0 = type("P0", (XDP,), pre_ns)
+                subset = tuple(subs[::-1]) if tape.chance("c08/pre-reversed", 50) else tuple(subs)
+                P0(subprograms=subset).load()
+                world.count("c08/subprograms-laid-out-in-an-earlier-program")
+            except Exception as e:
+                viol("program-cannot-be-generated", f"earlier program: {type(e).__name__}: {e}",
+                     exception=type(e).__name__)
         try:
             p = P(subprograms=tuple(subs))
             p.load()
@@ -245,6 +262,7 @@ def run(tape, scenario, want_c10=False):
             nops = 4 + tape.draw("c08/nops", 26)
             runs = 0
             py_values = {}
+            kept_views = {}
             for step in range(nops):
                 if violations:
                     break
@@ -291,6 +309,25 @@ def run(tape, scenario, want_c10=False):
                         break
                     h, n, f, k = tape.pick("c08/pcvar", pc_vars)
                     seq = getattr(p, n)
+                    # the object an application fetched earlier and kept (outside its
+                    # polling loop) shows the values of this read as well
+                    kept = kept_views.get(n)
+                    if kept is not None and tape.chance("c08/use-kept-view", 50):
+                        world.count("c08/per-cpu-view-kept-across-reads")
+                        try:
+                            stale = [c for c in range(online)
+                                     if not same(f, kept[c], seq[c])]
+                        except Exception as e:
+                            viol("percpu-read-failed", f"{n}: kept view: {type(e).__name__}: {e}",
+                                 more_possible_than_online=possible > online)
+                            break
+                        if stale:
+                            viol("percpu-read-differs", f"{n} ({f}): the view fetched before "
+                                 f"an earlier read() shows {kept[stale[0]]!r} for CPU "
+                                 f"{stale[0]}, a fresh one {seq[stale[0]]!r}",
+                                 more_possible_than_online=possible > online)
+                            break
+                    kept_views[n] = seq
                     ncpu = len(seq)
                     if ncpu < online:
                         viol("percpu-cpu-count", f"{n}: Python sees {ncpu} CPUs, {online} are "
